@@ -86,6 +86,7 @@ pub fn c03(tier: Tier) -> Result<Report, String> {
             }
         }),
         bound: if thorough { 3 } else { 2 },
+        bound_for: None,
         explicit: Box::new(move |_sc, cfg| {
             if thorough && cfg.quantum >= 5 && cfg.workers <= 2 {
                 Some(300_000)
@@ -201,6 +202,7 @@ pub fn c04(tier: Tier) -> Result<Report, String> {
             }
         }),
         bound: if thorough { 3 } else { 2 },
+        bound_for: None,
         explicit: Box::new(move |_sc, cfg| {
             if thorough && cfg.quantum >= 5 && cfg.workers <= 2 {
                 Some(300_000)
@@ -263,6 +265,7 @@ pub fn c06(tier: Tier) -> Result<Report, String> {
             }
         }),
         bound: if thorough { 3 } else { 2 },
+        bound_for: None,
         explicit: Box::new(move |_sc, cfg| {
             if thorough && cfg.quantum >= 3 && cfg.workers <= 2 {
                 Some(300_000)
@@ -279,11 +282,207 @@ pub fn c06(tier: Tier) -> Result<Report, String> {
     driver::run_plan(plan)
 }
 
+struct SelectMon {
+    std: StdMonitor,
+    sel: super::selectmon::SelectMonitor,
+    sc: Scenario,
+}
+
+impl Monitor for SelectMon {
+    fn after(&mut self, sys: &mut super::system::System, act: &super::system::Act) -> Vec<(String, String)> {
+        let mut out = self.std.after(sys, act);
+        if out.is_empty() {
+            out.extend(self.sel.check(sys));
+        }
+        out
+    }
+    fn terminal(&mut self, sys: &mut super::system::System, horizon_hit: bool) -> Vec<(String, String)> {
+        let mut out = self.sel.check(sys);
+        if out.is_empty() && !horizon_hit && self.sc.family == "select_mix" {
+            if let Some(Ok((v, heap))) = sys.entry_result.clone() {
+                let refs = std::cell::RefCell::new(std::collections::BTreeMap::new());
+                let entry = super::render_value(sys, &v, &heap, &refs);
+                let mb = mailbox_of(sys, "r.2");
+                out.extend(drain_accounting(&self.sc, &entry, &mb));
+            }
+        }
+        if out.is_empty() {
+            out.extend(self.std.terminal(sys, horizon_hit));
+        }
+        out
+    }
+}
+
+fn select_monitor(sc: &Scenario, _: &Config) -> Box<dyn Monitor> {
+    Box::new(SelectMon {
+        std: StdMonitor {
+            conserve: true,
+            expect_entry_result: true,
+            ..Default::default()
+        },
+        sel: Default::default(),
+        sc: sc.clone(),
+    })
+}
+
+/// Program-level part of C05: what the select yielded, what the drain loop found afterwards and
+/// what is still in the receiver's mailbox at quiescence account for the three messages sent:
+/// nothing lost, nothing duplicated, nothing taken that was not selected, leftovers in send order.
+fn drain_accounting(sc: &Scenario, entry: &str, final_mailbox: &[String]) -> Option<(String, String)> {
+    let inner = entry.strip_prefix('[')?.strip_suffix(']')?;
+    let mut parts: Vec<String> = vec![];
+    let mut depth = 0;
+    let mut cur = String::new();
+    for ch in inner.chars() {
+        match ch {
+            '[' => {
+                depth += 1;
+                cur.push(ch)
+            }
+            ']' => {
+                depth -= 1;
+                cur.push(ch)
+            }
+            ',' if depth == 0 => {
+                parts.push(cur.trim().to_string());
+                cur.clear();
+            }
+            _ => cur.push(ch),
+        }
+    }
+    parts.push(cur.trim().to_string());
+    if parts.len() != 4 {
+        return Some(("O-drain".to_string(), format!("unreadable receiver report {}", entry)));
+    }
+    let two_senders = sc.id.contains(",2s");
+    let msgs = ["1", "A[4]", "2"];
+    let selected = &parts[0];
+    let left: Vec<&String> = parts[1..].iter().filter(|p| *p != "[]").collect();
+    let mut seen: Vec<&str> = left.iter().map(|s| s.as_str()).collect();
+    if msgs.contains(&selected.as_str()) {
+        seen.push(selected.as_str());
+    }
+    seen.extend(final_mailbox.iter().map(|s| s.as_str()));
+    let mut sorted_seen = seen.clone();
+    sorted_seen.sort();
+    let mut want: Vec<&str> = msgs.to_vec();
+    want.sort();
+    if sorted_seen != want {
+        return Some((
+            "O-drain".to_string(),
+            format!(
+                "messages sent were 1, A[4], 2 but selected {} + drained {:?} + still in mailbox {:?} do not account for exactly those: a message was lost, duplicated, or taken although not selected",
+                selected, left, final_mailbox
+            ),
+        ));
+    }
+    if !two_senders {
+        // drained messages followed by the mailbox rest must be in send order
+        let mut seq: Vec<&str> = left.iter().map(|s| s.as_str()).collect();
+        seq.extend(final_mailbox.iter().map(|s| s.as_str()));
+        let order: Vec<usize> = seq
+            .iter()
+            .map(|l| msgs.iter().position(|m| m == l).unwrap())
+            .collect();
+        if order.windows(2).any(|w| w[0] > w[1]) {
+            return Some((
+                "O-drain".to_string(),
+                format!("messages not taken did not keep their original order: report {}, mailbox {:?}", entry, final_mailbox),
+            ));
+        }
+    }
+    None
+}
+
+fn c05_oracle(_sc: &Scenario, _reference: &Outcome, _got: &Outcome) -> Option<(String, String)> {
+    None
+}
+
+fn mailbox_of(sys: &mut super::system::System, path: &str) -> Vec<String> {
+    let mut out = vec![];
+    for i in 0..sys.workers.len() {
+        if sys.workers[i].dead || sys.workers[i].mid_step.is_some() {
+            continue;
+        }
+        let boxes: Vec<(usize, Vec<(quiver_core::value::Value, Vec<Vec<u8>>)>)> = sys.with_worker(i, |w| {
+            let ex = w.verif_executor();
+            ex.verif_sched_view()
+                .pids
+                .iter()
+                .map(|pid| {
+                    let p = ex.get_process(*pid).unwrap();
+                    (
+                        *pid,
+                        p.mailbox
+                            .iter()
+                            .map(|m| ex.extract_heap_data(m).unwrap_or((m.clone(), vec![])))
+                            .collect(),
+                    )
+                })
+                .collect()
+        });
+        for (pid, msgs) in boxes {
+            if sys.path_of(pid) == path {
+                let refs = std::cell::RefCell::new(std::collections::BTreeMap::new());
+                for (m, heap) in msgs {
+                    out.push(super::render_value(sys, &m, &heap, &refs));
+                }
+            }
+        }
+    }
+    out
+}
+
+pub fn c05(tier: Tier) -> Result<Report, String> {
+    let thorough = tier == Tier::Thorough;
+    let mut scenarios = scenarios::select_mix_all(thorough);
+    for n in 2..=3 {
+        scenarios.extend(
+            scenarios::messaging_all(false)
+                .into_iter()
+                .filter(|s| (s.family == "fanout_race" && s.id.starts_with(&format!("fanout_race({}", n))) ),
+        );
+    }
+    scenarios.extend(scenarios::messaging_all(false).into_iter().filter(|s| s.family == "late_await" || s.family == "typed_mail"));
+    let plan = Plan {
+        property: "C05",
+        scenarios,
+        configs: Box::new(move |sc| {
+            if thorough {
+                grid(sc, &[1, 2, 3], &[1, 2, 1000], false)
+            } else {
+                grid(sc, &[2], &[1, 1000], false)
+            }
+        }),
+        bound: 2,
+        bound_for: Some(Box::new(move |_sc, cfg| if cfg.quantum >= 1000 { 2 } else if thorough { 2 } else { 1 })),
+        explicit: Box::new(move |_sc, cfg| {
+            if thorough && cfg.quantum >= 1000 && cfg.workers == 2 {
+                Some(200_000)
+            } else {
+                None
+            }
+        }),
+        monitor: &select_monitor,
+        oracle: Some(&c05_oracle),
+        wall_budget_s: if thorough { 840.0 } else { 45.0 },
+        assumptions: {
+            let mut a: Vec<String> = ASSUME_A.iter().map(|s| s.to_string()).collect();
+            a.push("readiness of an awaited source is judged on the awaiter's local `awaiting` map (information that has arrived); loss of information in transit is I-conserve-completion's job; a timeout's readiness uses the implementation's own start_time, its lower bound the select's first entry".to_string());
+            a.push("filters come from a closed family whose verdict the host computes from the captured value (accept the integer equal to the capture)".to_string());
+            a
+        },
+        explanation: "select_mix: a receiver runs one select over every source list of length 1-2 (thorough: + await/receive/timeout triples in every order) drawn from {await finished child, await never-finishing child, type-only 'int, type-only A['int], filter =2 => Ok, filter =1 => 99, timeout 0, timeout 5}, fed 1, A[4], 2 by one or two senders, then drains its mailbox. Every schedule within the deviation bound, including virtual-clock advances to each pending expiry at any point. Monitor hook H1d snapshots every handle_select entry/exit; a host reference function decides on the entry snapshot which source must win (first in written order that is ready), which message must be taken (earliest of the source's type accepted by its filter), the value (the message, never the verdict; nil for a timeout; the awaited result), that the mailbox afterwards is the mailbox before minus that one message in order, that a parked select had nothing ready, and that a timeout fires no earlier than its duration after the select's first entry.".to_string(),
+    };
+    driver::run_plan(plan)
+}
+
 pub fn monitor_for(property: &str) -> (&'static driver::MonitorFactory, Option<&'static driver::OutcomeOracle>) {
     match property {
         "C03" => (&std_monitor, Some(&c03_oracle)),
         "C04" => (&conserve_monitor, Some(&c04_oracle)),
         "C06" => (&heap_monitor, Some(&c06_oracle)),
+        "C05" => (&select_monitor, Some(&c05_oracle)),
         _ => (&std_monitor, None),
     }
 }
